@@ -140,7 +140,7 @@ def run_history(ctx: RunCtx, U) -> None:
     ds, log = ctx.ds, ctx.log
     from hiten import System
     # fresh Systems per run: System-level memo entries (libration points) must not leak between runs
-    systems = {"em": System.from_bodies("earth", "moon")}
+    systems = {"em": System.from_mu(float(U["sys_twin"]["em"].mu))}   # generic body names: see checks/c20.py warmup
     where0 = ("em", 1 + ds.choose(2, "lp[0].point"))
     lps = [{"where": where0, "real": systems["em"].get_libration_point(where0[1])}]
     second = ds.choose(4, "lp[1].kind", (0.5, 0.2, 0.15, 0.15))   # 0 none, 1 other point of the same system, 2 same point fetched again, 3 L1 of another system
@@ -150,7 +150,7 @@ def run_history(ctx: RunCtx, U) -> None:
     elif second == 2:
         lps.append({"where": where0, "real": systems["em"].get_libration_point(where0[1])})
     elif second == 3:
-        systems["se"] = System.from_bodies("sun", "earth")
+        systems["se"] = System.from_mu(float(U["sys_twin"]["se"].mu))
         lps.append({"where": ("se", 1), "real": systems["se"].get_libration_point(1)})
     n_cm = 1 + ds.choose(2, "cm.n_objects", (0.65, 0.35))
     cms = []
